@@ -431,7 +431,14 @@ fn step(alpha: &[Stmt], hist: &[u8], next: u8) -> StepResult {
     let before = s.snapshot();
     let st = &alpha[next as usize];
     let outcome = s.run(st.src);
-    let after = s.snapshot();
+    // reading the session back must not panic either (a binding that points at a freed or reused heap
+    // cell would)
+    let after = match catch(std::panic::AssertUnwindSafe(|| s.snapshot())) {
+        Ok(a) => a,
+        Err(p) => {
+            return StepResult { key: format!("panic:{}", p), problems: vec![("panic-reading-bindings".into(), "every binding can be read".into(), p)], status: "panic" };
+        }
+    };
     let exp = (st.model)(&mut m);
     let mut problems = vec![];
 
@@ -580,7 +587,12 @@ pub fn run(ctx: &Ctx, replay: Option<&J>) -> i32 {
         // expand one BFS level in parallel
         let level: Vec<Vec<u8>> = frontier.drain(..).collect();
         let jobs: Vec<(usize, u8)> = (0..level.len()).flat_map(|i| (0..alpha.len() as u8).map(move |a| (i, a))).collect();
-        let results = par_map(&jobs, |(i, a)| step(&alpha, &level[*i], *a));
+        // (a panic anywhere in a transition - while replaying the history, evaluating, or reading the
+        // session back - is a finding for that transition, not a crash of the explorer)
+        let results = par_map(&jobs, |(i, a)| match catch(|| step(&alpha, &level[*i], *a)) {
+            Ok(r) => r,
+            Err(p) => StepResult { key: format!("panic:{}:{}", i, a), problems: vec![("panic".into(), "a result or an error; every binding readable".into(), p)], status: "panic" },
+        });
         for ((i, a), res) in jobs.iter().zip(results.into_iter()) {
             transitions += 1;
             ctx.count(1);
